@@ -200,14 +200,8 @@ func c16Setup(env *core.Env, kinds []string) (root string, names []string, orig 
 	if err := drive.WriteTree(root, tree); err != nil {
 		panic(err)
 	}
-	for _, n := range owned {
-		if os.Geteuid() == 0 {
-			_ = os.Chown(filepath.Join(root, "t", n), 65534, 65534)
-		}
-	}
-	if len(owned) > 0 {
-		_ = os.Chmod(filepath.Join(root, "t"), 0o555)
-	}
+	c16Owned = owned
+	c16Disown(root)
 	os.MkdirAll(filepath.Join(root, "links"), 0o755)
 	for _, n := range linked {
 		if err := os.Link(filepath.Join(root, "t", n), filepath.Join(root, "links", n+".lnk")); err != nil {
@@ -235,7 +229,23 @@ func c16Patch2Results(env *core.Env, root string, names []string, orig map[strin
 	return r.files
 }
 
+// c16Owned: files of the current scenario that belong to another user (their directory has no write bits).
+var c16Owned []string
+
+func c16Disown(root string) {
+	for _, n := range c16Owned {
+		if os.Geteuid() == 0 {
+			_ = os.Chown(filepath.Join(root, "t", n), 65534, 65534)
+		}
+	}
+	if len(c16Owned) > 0 {
+		_ = os.Chmod(filepath.Join(root, "t"), 0o555)
+	}
+}
+
 func c16Reset(root string, orig map[string]string) {
+	defer c16Disown(root)
+	os.Chmod(filepath.Join(root, "t"), 0o755)
 	os.RemoveAll(filepath.Join(root, "t"))
 	os.MkdirAll(filepath.Join(root, "t"), 0o755)
 	for n, s := range orig {
